@@ -49,6 +49,15 @@ def T(name, target, old, new, why="", count=1):
     return Variant(name, "twin", target, old, new, (), None, why, count)
 
 
+def M2(name, edits, expect, construct=None, why=""):
+    """mutant made of several cooperating edits [(target, old, new), ...]"""
+    return Variant(name, "mutant", list(edits), None, None, expect, construct, why)
+
+
+def T2(name, edits, why=""):
+    return Variant(name, "twin", list(edits), None, None, (), None, why)
+
+
 def _find_fn(tree, cls, name, setter):
     body = tree.body
     if cls:
@@ -73,6 +82,16 @@ def apply_variant(src, dst, v):
     os.makedirs(dst, exist_ok=True)
     for f in glob.glob(os.path.join(src, "*.py")):
         shutil.copy(f, dst)
+    if isinstance(v.target, (list, tuple)):       # several cooperating sites
+        for (target, old, new) in v.target:
+            na = _apply_one(dst, Variant(v.name, v.kind, target, old, new))
+            if na:
+                return na
+        return None
+    return _apply_one(dst, v)
+
+
+def _apply_one(dst, v):
     if v.target.startswith("mod:"):
         mod = v.target[4:]
         path = os.path.join(dst, mod + ".py")
